@@ -120,7 +120,31 @@ def written_fields(body):
     return out
 
 
-def byte_fact(body, atom, buf_field, written):
+def byte_count_operand(body, x, buf_field, written):
+    """x is the number of unconsumed bytes: a field of the connection that this function keeps up to date
+    (and that is not the buffer itself), or len() of the buffer it parses from."""
+    ok = False
+    p = op_place(x)
+    l = p["l"] if p is not None else None
+    if p is not None and p["p"]:
+        f = last_named_field(p)
+        ok = f is not None and f in written and f != buf_field
+    elif l is not None:
+        for bb, i, s in body.stmts():
+            if s["k"] == "assign" and s["place"]["l"] == l and not s["place"]["p"] and s["rv"]["k"] == "use":
+                p2 = op_place(s["rv"]["op"])
+                if p2 is not None and p2["p"]:
+                    f = last_named_field(p2)
+                    if f is not None and f in written and f != buf_field:
+                        ok = True
+        for bb, t in body.calls():
+            if t["dest"]["l"] == l and any(nm == "bytes::bytes_mut::BytesMut::len" for nm in callee_names(t)):
+                if ref_field_of_local(body, op_local(t["args"][0])) == buf_field:
+                    ok = True
+    return ok
+
+
+def byte_fact(body, atom, buf_field, written, param_ok=None):
     """Does this switch test 'unconsumed bytes == 0'?  Returns the target taken when there are
     ZERO unconsumed bytes, or None if the atom is not such a test."""
     if atom["kind"] == "call":
@@ -140,25 +164,17 @@ def byte_fact(body, atom, buf_field, written):
             op = {"Lt": "Gt", "Gt": "Lt", "Le": "Ge", "Ge": "Le"}.get(op, op)
         if k is None:
             return None
-        # what is x?  a field of the connection that this function keeps up to date, or len() of the buffer
-        ok = False
-        p = op_place(x)
-        l = p["l"] if p is not None else None
-        if p is not None and p["p"]:
-            f = last_named_field(p)
-            ok = f is not None and f in written and f != buf_field
-        elif l is not None:
-            for bb, i, s in body.stmts():
-                if s["k"] == "assign" and s["place"]["l"] == l and not s["place"]["p"] and s["rv"]["k"] == "use":
-                    p2 = op_place(s["rv"]["op"])
-                    if p2 is not None and p2["p"]:
-                        f = last_named_field(p2)
-                        if f is not None and f in written and f != buf_field:
-                            ok = True
-            for bb, t in body.calls():
-                if t["dest"]["l"] == l and any(nm == "bytes::bytes_mut::BytesMut::len" for nm in callee_names(t)):
-                    if ref_field_of_local(body, op_local(t["args"][0])) == buf_field:
-                        ok = True
+        ok = byte_count_operand(body, x, buf_field, written)
+        if not ok and param_ok is not None:
+            l = op_local(x)
+            # a parameter of a helper (possibly copied into a temporary): decided by what the caller passes
+            for _ in range(4):
+                if l is None or 1 <= l <= body.mir["argc"]:
+                    break
+                defs = [s2 for _, _, s2 in body.stmts() if s2["k"] == "assign" and s2["place"]["l"] == l and not s2["place"]["p"]]
+                l = op_local(defs[0]["rv"]["op"]) if len(defs) == 1 and defs[0]["rv"]["k"] == "use" else None
+            if l is not None and 1 <= l <= body.mir["argc"]:
+                ok = param_ok(l)
         if not ok:
             return None
         if k == 0:
@@ -185,6 +201,11 @@ def receive_rule(rep, prog, cfg, fn, flavour):
     atom, zero_t = zs[0]
     region = g.reach([zero_t])
     clean = ok_none_blocks(b) & region
+    if not clean:
+        # the classification may live in a helper the zero-read edge calls and whose result it returns
+        if helper_rule(rep, prog, cfg, flavour, b, g, fl, zero_t, region):
+            deliver_first(rep, cfg, flavour, b, g)
+            return
     if len(clean) != 1:
         rep.fail(rule, "%s/%s clean-EOF return" % (cfg, flavour), b.loc(b.blocks[atom["bb"]]["ts"]),
                  "expected exactly one Ok(None) construction after a 0-byte read, found %d" % len(clean))
@@ -225,11 +246,90 @@ def receive_rule(rep, prog, cfg, fn, flavour):
     leaks = [x for x in other if b.blocks[x]["t"]["k"] == "return"]
     rep.check(not leaks and bool(eofs & region), rule, "%s/%s otherwise UnexpectedEof" % (cfg, flavour), where,
               "after a 0-byte read there is a way to return that is neither the clean Ok(None) nor an io::Error of kind UnexpectedEof")
+    deliver_first(rep, cfg, flavour, b, g)
+
+
+def deliver_first(rep, cfg, flavour, b, g):
     # C10.deliver-first: parse dominates the read
     pb = [bb for bb, t in b.calls() if PARSE in callee_names(t)]
     rb = [bb for bb, t in b.calls() if any(n in READS for n in callee_names(t))]
     rep.check(pb and rb and all(g.dom(pb[0], r) for r in rb), "C10.deliver-first", "%s/%s" % (cfg, flavour), b.loc(b.span),
               "the parse attempt on buffered bytes does not dominate the read: complete responses already buffered may not be delivered before EOF is observed")
+
+
+def helper_rule(rep, prog, cfg, flavour, b, g, fl, zero_t, region):
+    """EOF classification extracted into a helper: `break helper(&self, builder.is_frame_in_progress())`.
+    Decides the same guard rule inside the helper, with the *caller's* buffer / maintained counters."""
+    rule = "C10.guard"
+    cands = []
+    for bb in sorted(region):
+        t = b.blocks[bb]["t"]
+        if t["k"] != "call":
+            continue
+        f = callee(t)
+        tid = (f.get("inst") or f["def"]) if f else None
+        if tid in prog.bodies and prog.bodies[tid].crate == "mpd_protocol" and "Result<" in prog.bodies[tid].local_ty(0):
+            cands.append((bb, t, prog.bodies[tid]))
+    if len(cands) != 1:
+        return False
+    cbb, ct, H = cands[0]
+    # which arguments carry the frame-in-progress fact
+    inprog_params = set()
+    for i, a in enumerate(ct["args"]):
+        l = op_local(a)
+        if l is None:
+            continue
+        leaves, _ = fl.sources([l], through_call=identity_through, follow_mut=False)
+        if any(x[0] == "call" and INPROG in callee_names(b.blocks[x[1]]["t"]) for x in leaves):
+            inprog_params.add(i + 1)
+    # the helper's result is what the caller returns from the zero-read region
+    leaves, _ = fl.sources([0], through_call=identity_through, follow_mut=False)
+    if ("call", cbb) not in leaves:
+        return False
+    Hl = logic_body(prog, norm(H.name), set()) or H
+    hb = H
+    # the body that holds the logic (tracing::instrument may nest it)
+    from ..common import family
+    for fb in family(prog, H):
+        if ok_none_blocks(fb):
+            hb = fb
+    hg = Cfg(hb)
+    clean = ok_none_blocks(hb)
+    if len(clean) != 1:
+        rep.fail(rule, "%s/%s helper clean-EOF return" % (cfg, flavour), hb.loc(hb.span),
+                 "the EOF helper %s does not build exactly one Ok(None)" % norm(H.name))
+        return True
+    C = next(iter(clean))
+    buf_field = buffer_field_of_parse(b)
+    written = written_fields(b) | written_fields(hb)
+    in_prog_ok = bytes_ok = False
+    for bb in sorted(hb.reachable()):
+        a = switch_atom(hb, bb)
+        if a is None:
+            continue
+        if (a["kind"] == "param" and a["param"] in inprog_params) or (a["kind"] == "call" and INPROG in a["names"]):
+            if C not in reach(hg.succs, [0], avoid_edges=[(a["bb"], a["false"])]) and C not in reach(hg.succs, [a["true"]], avoid=[a["bb"]]):
+                in_prog_ok = True
+            continue
+        def param_ok(k, _ct=ct):
+            return k - 1 < len(_ct["args"]) and byte_count_operand(b, _ct["args"][k - 1], buf_field, written_fields(b))
+        z = byte_fact(hb, a, buf_field, written_fields(b), param_ok)      # counters must be maintained by the *caller*
+        if z is not None:
+            nz = a["false"] if z == a["true"] else a["true"]
+            if C not in reach(hg.succs, [0], avoid_edges=[(a["bb"], z)]) and C not in reach(hg.succs, [nz], avoid=[a["bb"]]):
+                bytes_ok = True
+    where = hb.loc(hb.span)
+    rep.check(in_prog_ok, rule, "%s/%s frame-in-progress disjunct" % (cfg, flavour), where,
+              "in the EOF helper %s, Ok(None) is reachable without passing the false side of the frame-in-progress fact handed over by %s receive" % (norm(H.name), flavour))
+    rep.check(bytes_ok, rule, "%s/%s unconsumed-bytes disjunct" % (cfg, flavour), where,
+              "in the EOF helper %s, Ok(None) is reachable without passing the 'zero unconsumed bytes' side of a test on the buffer the %s receive parses from (%s) "
+              "or a byte count that this receive flavour itself maintains: an EOF inside a partial line would be clean" % (norm(H.name), flavour, buf_field))
+    eofs = eof_error_blocks(hb)
+    other = reach(hg.succs, [0], avoid=list(eofs) + [C])
+    leaks = [x for x in other if hb.blocks[x]["t"]["k"] == "return"]
+    rep.check(not leaks and bool(eofs), rule, "%s/%s otherwise UnexpectedEof" % (cfg, flavour), where,
+              "the EOF helper can return something that is neither the clean Ok(None) nor an io::Error of kind UnexpectedEof")
+    return True
 
 
 def connect_rule(rep, prog, cfg, fn, flavour):
